@@ -156,6 +156,21 @@ def primitives():
            ["FlagsEnum", ["name", "Byte"], [["r", 1], ["w", 2], ["x", 4]]], ["FlagsEnum", ["name", "Int16ub"], [["lo", 1], ["hi", 0x8000]]],
            ["Mapping", ["name", "Byte"], [["a", 0], ["b", 1]]], ["ByteSwapped", ["name", "Int32ub"]], ["ByteSwapped", ["Bytes", 3]],
            ["Hex", ["name", "Int24ul"]], ["OneOf", ["name", "Byte"], [1, 5, 9]], ["ProcessXor", 0x5a, ["name", "Int16ub"]]]
+    # rotation: every group width 1..5 x amounts around the whole-byte, over-wide and negative cases
+    for g in (1, 2, 3, 4, 5):
+        for amount in (-16, -8, -1, 0, 1, 7, 8, 9, 16, 24, 8 * g, 8 * g + 8):
+            ps.append(["ProcessRotateLeft", amount, g, ["Bytes", 2 * g]])
+    # bit regions whose size is discovered while streaming: a partially consumed byte followed by a read-to-end field / counted fields
+    for w in range(1, 8):
+        ps.append(["Bitwise", ["Struct", [["w", ["BitsInteger", w, False, False]], ["rest", ["name", "GreedyBytes"]]]]])
+        ps.append(["Bitwise", ["Struct", [["n0", ["BitsInteger", w, False, False]], [None, ["Padding", 8 - w]], ["xs", ["Array", ["bin", "&", ["this", "n0"], 1], ["BitsInteger", 12, True, False]]],
+                                          ["ys", ["Array", ["bin", "&", ["this", "n0"], 1], ["name", "Nibble"]]]]]])
+    # Sequences whose named, self-derived members select the layout of later members
+    B = ["name", "Byte"]
+    for derived in (["Default", B, 2], ["Const", 3, B], ["Default", ["name", "Int16ul"], 1], ["Rebuild", B, 2]):
+        ps.append(["Sequence", [["n", derived], [None, ["Bytes", ["this", "n"]]]]])
+        ps.append(["Sequence", [["n", derived], ["xs", ["Array", ["this", "n"], ["name", "Int16ub"]]], [None, ["IfThenElse", ["bin", "==", ["this", "n"], 2], B, ["name", "Int24ub"]]]]])
+        ps.append(["Sequence", [["n", derived], [None, ["Switch", ["this", "n"], [[1, B], [2, ["name", "Int16ul"]], [3, ["Bytes", 3]]], None]], [None, ["Struct", [["d", ["Bytes", ["this", "_", "n"]]]]]]]])
     return ps
 
 
